@@ -351,22 +351,36 @@ def table6(ctx) -> List[Ob]:
     if not ctors:
         raise AnalysisError("no PythonBytecodeBlock(...) in build_basicblocks")
     jt = kw(ctors[0], "_jump_targets")
-    if not isinstance(jt, ast.Name):
-        out.append(unresolved("TABLE-6", bb.qualname, "successor expression", ctx.where(bb, ctors[0]), "successors are not passed through a local"))
-        return out
     from .ctrl import _guard_conditions
 
-    assigns = [s for s in A.walk_no_nested(bbx) if isinstance(s, ast.Assign) and any(isinstance(t, ast.Name) and t.id == jt.id for t in s.targets)]
+    if jt is None:
+        out.append(unresolved("TABLE-6", bb.qualname, "successor expression", ctx.where(bb, ctors[0]), "no _jump_targets argument"))
+        return out
+    if not isinstance(jt, ast.Name):
+        # the successor expression written straight into the constructor call: one pseudo assignment
+        pseudo = ast.Assign(targets=[ast.Name(id="<successors>", ctx=ast.Store())], value=jt, lineno=getattr(jt, "lineno", 0))
+        ast.copy_location(pseudo, ctors[0])
+        for a_ in A.ancestors(ctors[0]):
+            if isinstance(a_, ast.stmt):
+                A_parent = a_
+                break
+        pseudo._sa_parent = getattr(A_parent, "_sa_parent", None) if False else None
+        assigns = [A_parent]
+        jt_expr = jt
+    else:
+        jt_expr = None
+        assigns = [s for s in A.walk_no_nested(bbx) if isinstance(s, ast.Assign) and any(isinstance(t, ast.Name) and t.id == jt.id for t in s.targets)]
     seen = set()
     # `t = A if c else B` is the two-armed statement `if c: t = A else: t = B`
     cases = []
     for s in assigns:
-        if isinstance(s.value, ast.IfExp):
-            ct = A.unparse(s.value.test)
-            cases.append((s, s.value.body, [(ct, True)]))
-            cases.append((s, s.value.orelse, [(ct, False)]))
+        sval = jt_expr if jt_expr is not None else s.value
+        if isinstance(sval, ast.IfExp):
+            ct = A.unparse(sval.test)
+            cases.append((s, sval.body, [(ct, True)]))
+            cases.append((s, sval.orelse, [(ct, False)]))
         else:
-            cases.append((s, s.value, []))
+            cases.append((s, sval, []))
     for s, val_, extra in cases:
         txt = A.unparse(val_)
         guards = extra + _guard_conditions(bbx, s)
